@@ -108,11 +108,11 @@ def errStr : Option Err → String
   | some (.ctx _) => "ctx"
 
 /-- apply one event to the model state; `none` = not enabled (now) -/
-def applyEv (s : St) : Ev → Option St
-  | .lab l => step s l
+def applyEv (c : Cfg) (s : St) : Ev → Option St
+  | .lab l => step c s l
   | .fan i p sendOk flushOk =>
     match s.joe with
-    | .fanout cur _ => if p == some cur then step s (.fanStep i sendOk flushOk) else none
+    | .fanout cur _ => if p == some cur then step c s (.fanStep i sendOk flushOk) else none
     | _ => none
   | .subRet i r =>
     match (s.subs i).pc with
@@ -123,8 +123,8 @@ def applyEv (s : St) : Ev → Option St
   | .pubRet p r =>
     -- Publish's own receive from `errs` and the ErrNoTopic early return have no hook: fold them in
     let s := match (s.pubs p).pc with
-      | .handed _ => (step s (.pubRecv p)).getD s
-      | .start => if r == "notopic" then (step s (.pubNoTopic p)).getD s else s
+      | .handed _ => (step c s (.pubRecv p)).getD s
+      | .start => if r == "notopic" then (step c s (.pubNoTopic p)).getD s else s
       | _ => s
     match (s.pubs p).pc with
     | .returned e => if errStr e == r then some s else none
@@ -137,20 +137,20 @@ def applyEv (s : St) : Ev → Option St
 
 /-- Trace inclusion with deferral: repeatedly take the first pending event that is enabled and
 is the earliest pending event of its own goroutine. -/
-partial def validate (s : St) (pending : List (Proc × Ev)) (steps : Nat) : String × St :=
+partial def validate (c : Cfg) (s : St) (pending : List (Proc × Ev)) (steps : Nat) : String × St :=
   if bad s then (s!"reject: model reached a panicked/blocked state after {steps} steps", s) else
   let rec pick (seen : List Proc) (before : List (Proc × Ev)) : List (Proc × Ev) → Option (St × List (Proc × Ev))
     | [] => none
     | (pr, e) :: t =>
       if seen.contains pr then pick seen ((pr, e) :: before) t
-      else match applyEv s e with
+      else match applyEv c s e with
         | some s' => some (s', before.reverse ++ t)
         | none => pick (pr :: seen) ((pr, e) :: before) t
   match pending with
   | [] => ("accept", s)
   | (pr, e) :: _ =>
     match pick [] [] pending with
-    | some (s', rest) => validate s' rest (steps + 1)
+    | some (s', rest) => validate c s' rest (steps + 1)
     | none => (s!"reject: after {steps} steps no pending event is enabled; first pending: {repr pr} {repr e}", s)
 
 /-- capacity-N FIFO of publications for the `finite:N` replayer (ReplaySpec instance) -/
@@ -276,9 +276,9 @@ def joe (args : List String) : String × String :=
     | [facts, scen, trace] =>
       let sc := parseScenario scen
       let evs := if trace == "-" then [] else (trace.splitOn ",").map parseEv
-      let init : St := GoSSE.Model.Joe.init
-        (fun i => (sc.subTopics[i]?).getD []) (fun _ => none) (fun p => (sc.pubTopics[p]?).getD []) (sc.rep != "none")
-      let v := validate init evs 0
+      let cfg : Cfg := { subTopics := fun i => (sc.subTopics[i]?).getD [], pubTopics := fun p => (sc.pubTopics[p]?).getD [] }
+      let init : St := GoSSE.Model.Joe.init (sc.rep != "none")
+      let v := validate cfg init evs 0
       let viol := factsTag facts ++ judge sc evs
       (v.1, if viol.isEmpty then "ok" else "viol " ++ " ;; ".intercalate viol)
     | _ => ("bad-observation", "bad-observation")
